@@ -63,7 +63,18 @@ mpd_protocol and/or mpd_client (src/ files only, never the existing tests) such 
    for injected read/write errors and writes returning Ok(0); callers that give up (drop their
    future) at any point; counters beyond 16 bits (300 000 requests / chunks); every decoded value
    also formatted with {{:?}} and {{:#?}}; Tag::Other built from canonical and re-cased names; password
-   and no-password handshakes; NOT-stacks of 1000+ negations; clones and clone_from of everything.
+   and no-password handshakes; NOT-stacks of 1000+ negations; clones and clone_from of everything;
+   tracing subscribers at every max level (TRACE, DEBUG, INFO, ERROR); connections and clients used
+   from other OS threads than the one that created them, callers polled by a foreign (non-tokio)
+   executor; the application sending arbitrary commands (any MPD command name, e.g. binarylimit,
+   noidle, password) between interrupted or successive receives; a first send that the transport
+   refused; receive() called again after any error; values (filters, command builders) rendered,
+   formatted, cloned and compared between any two construction steps; commands built inside
+   thread-local destructors, re-entrantly from a renderer, during unwinding, after a contained panic;
+   borrowed arguments that are unaligned sub-slices; several iterators over one frame alive at once;
+   hashes of slices / tuples / options of values; 10^5..10^6 DISTINCT field names per response and
+   per connection; peers that send unasked lines together with the greeting; real-time pauses of up
+   to a minute between greeting segments; replies delayed by up to an hour of virtual time.
    Your change must still slip through: think about what is NOT in that list. Make it depend on a
    conjunction of individually unremarkable conditions that the list does not cross with each other,
    on state that only an unusual but legitimate sequence of public-API calls reaches, on an
